@@ -28,8 +28,12 @@ swallowed by a module-level `print`), the digester registry (`custom`: harness d
 non-sensitive types + on_toxic in the constructor; `partial`: harness digesters for two types only, the
 others fall back to the built-in ones, on_toxic assigned after construction; `builtin`: no digesters,
 no on_toxic), retention 0, digester answers (dict / {} / None / 0 / a non-dict / raising with and
-without a message, several exception classes / re-entering the lysosome), on_toxic answers, a second
-instance in the same process (`decoy`) and `clear_recycling_bin`.
+without a message, several exception classes / re-entering the lysosome), on_toxic answers, further
+instances in the same process (`decoy`: one built from separate argument objects, one built from the SAME
+caller-owned `digesters` dict object as the first - each with its own on_toxic, each judged by the normal oracle,
+then the first one again), the construction order (`born='second'`: the instance under test is the second one built
+from the caller's dict) and `clear_recycling_bin`. The harness digesters live in a caller-owned `Args` object (the
+dict the constructor is given); whose public call is under judgement decides which box they report to.
 
 Which "path" an item was processed on (digest / auto-digest / emergency) is derived from the public
 call under judgement (its kind, and for an ingest whether the queue was at capacity), never from the
@@ -278,11 +282,13 @@ def locks_in(obj):
     return out
 
 
-def copy_state(src, dst, remap):
+def copy_state(src, dst, remap, extras=()):
     """Make the instance state of dst a value copy of that of src (same class). Containers and private helper objects
     are copied recursively, bound methods are re-bound (`remap`: id(old owner) -> new owner; src -> dst is implied),
     locks are re-created by type (states are only cloned between calls: nothing is held), Waste items, callables and
-    other atoms are shared."""
+    other atoms are shared. `extras`: harness-side objects that belong to the same state (the caller-owned constructor
+    arguments): copied with the same memo - whatever the instance shares with them by identity stays shared in the
+    copy -; their copies are returned."""
     memo = {id(src): dst}
     memo.update(remap)
     kinds = _KINDS
@@ -346,6 +352,7 @@ def copy_state(src, dst, remap):
         state[name] = val if k <= WASTE else dup(val, k)
     vars(dst).clear()
     vars(dst).update(state)
+    return [dup(x, kinds.get(type(x)) or _kind(x)) for x in extras]
 
 
 # ---- item identity -------------------------------------------------------------------------------
@@ -365,11 +372,29 @@ def ident(w):
     raise common.HarnessError(f"unidentifiable waste item {w!r}")
 
 
-class Box:
-    """One lysosome under test plus the harness-side observation logs."""
+class Args:
+    """The mutable constructor arguments as a caller owns them: ONE `digesters` dict object (the only container among
+    the constructor's parameters) that any number of lysosomes can be built from. Its harness digesters report to the
+    box whose public call is under judgement (`current`)."""
 
-    def __init__(self, cap, thr, ret_min, mode="custom", silent=True, first_id=1, clone_of=None):
+    def __init__(self, mode):
+        self.current = None
+        self.digesters = {WasteType[t]: self._digester for t in CUSTOM_TYPES[mode]}
+
+    def _digester(self, w):
+        return self.current._answer(w, False)
+
+
+class Box:
+    """One lysosome under test plus the harness-side observation logs. `args`: build it from these caller-owned argument
+    objects (the same objects another box was built from) instead of fresh ones; `born='second'`: the caller first
+    built another Lysosome (own on_toxic callback) from the very same argument objects and let go of it."""
+
+    def __init__(self, cap, thr, ret_min, mode="custom", silent=True, first_id=1, clone_of=None, args=None, born="first"):
         self.cap, self.thr, self.ret_min, self.mode, self.silent = cap, thr, ret_min, mode, silent
+        self.first_id = first_id
+        self.strays = []     # ids of sensitive items that were handed to ANOTHER instance's on_toxic callback
+        self.siblings = 0    # further instances built next to this one so far
         self.dlog = []       # (id, path, 'ok'|'odd'|'raise'|'raise_anon', who, nested) in processing order
         self.log = []        # module-logger messages
         self.running = {}    # thread (None = sequential) -> path label of the public call it is executing
@@ -384,14 +409,24 @@ class Box:
         if clone_of is not None:
             # same lysosome state by value, its callbacks re-bound to this box (no constructor involved)
             self.lys = object.__new__(type(clone_of.lys))
-            copy_state(clone_of.lys, self.lys, {id(clone_of): self})
+            (self.args,) = copy_state(clone_of.lys, self.lys, {id(clone_of): self}, (clone_of.args,))
             return
-        dig = {WasteType[t]: self._digester for t in self.custom}
-        self.lys = Lysosome(max_queue_size=cap, auto_digest_threshold=thr, retention_hours=ret_min / 60.0,
-                            digesters=dig or None, on_toxic=self._on_toxic if mode == "custom" else None, silent=silent)
-        if mode == "partial":
-            self.lys.on_toxic = self._on_toxic  # public attribute, set after construction
+        if args is None:
+            args = Args(mode)
+            args.current = self
+        self.args = args
+        if born == "second":
+            self._construct(self._other_toxic)
+        self.lys = self._construct(self._on_toxic)
         install_locks_deep(self.lys)
+
+    def _construct(self, on_toxic):
+        lys = Lysosome(max_queue_size=self.cap, auto_digest_threshold=self.thr, retention_hours=self.ret_min / 60.0,
+                       digesters=self.args.digesters or None, on_toxic=on_toxic if self.mode == "custom" else None,
+                       silent=self.silent)
+        if self.mode == "partial":
+            lys.on_toxic = on_toxic  # public attribute, set after construction
+        return lys
 
     def observed(self, i):
         """Does the harness see item i being processed (its type has a harness digester / toxic callback)?"""
@@ -440,11 +475,11 @@ class Box:
             beh = "empty"
         return RETURNS[beh](i)
 
-    def _digester(self, w):
-        return self._answer(w, False)
-
     def _on_toxic(self, w):
         return self._answer(w, True)
+
+    def _other_toxic(self, w):
+        self.strays.append(ident(w)[0])
 
     # -- operations -----------------------------------------------------------------
     def new_id(self, tname, created=None):
@@ -503,11 +538,12 @@ class Box:
         return now - self.created[i] >= _dt.timedelta(minutes=self.ret_min)
 
 
-def decoy_activity(box):
-    """A second lysosome with the same options in the same process: must start empty whatever the first one has been
-    through, and using it must not touch the first one. Returns violations about the decoy itself."""
+def decoy_activity(box, first_id=1001):
+    """A second lysosome with the same options (separate argument objects) in the same process: must start empty
+    whatever the first one has been through, and using it must not touch the first one. Returns (violations about the
+    decoy itself, the decoy box)."""
     v = []
-    d = Box(box.cap, box.thr, box.ret_min, box.mode, box.silent, first_id=1001)
+    d = Box(box.cap, box.thr, box.ret_min, box.mode, box.silent, first_id=first_id)
     st0 = d.lys.get_statistics()
     if (st0["queue_size"], st0["total_ingested"], st0["total_digested"], st0["recycling_bin_size"]) != (0, 0, 0, 0) \
             or d.lys.get_recycled() or d.lys.get_queue_status()["size"]:
@@ -523,12 +559,28 @@ def decoy_activity(box):
         d.apply(("ingest", "ORPHANED_RESOURCE", "empty"))
         d.lys.autophagy()
     finally:
-        _Capture.sink = box.log
-    foreign = [i for i in d.qids() if i < 1001] + [e[0] for e in d.dlog if e[0] < 1001]
+        _Capture.sink = None
+    foreign = [i for i in d.qids() if i < first_id] + [e[0] for e in d.dlog if e[0] < first_id]
     if foreign or d.lys.get_statistics()["total_ingested"] != 4:
         v.append(("second-instance-sees-first", f"decoy instance holds/processed items {foreign} of the first instance, "
                                                 f"statistics {d.lys.get_statistics()}"))
-    return v
+    return v, d
+
+
+# what a further instance next to the first one is put through, judged by the normal oracle (sensitive items first, so
+# that they take whichever path the configuration reaches first: emergency, auto-digest or digest)
+SECOND_OPS = (("ingest_sensitive", "ok"), ("ingest", "MISFOLDED_PROTEIN", "recycle"), ("ingest_error", "raise"),
+              ("digest", None), ("ingest_sensitive", "ok"), ("digest", 1))
+# ... and the first instance afterwards (ends with an empty queue)
+FOLLOW_UP = (("ingest_sensitive", "ok"), ("digest", None))
+
+
+ISOLATION_KEYS = ("second-instance", "callback-of-other-instance", "queue-foreign-item", "other-instance-callback")
+
+
+def summary(box):
+    lys = box.lys
+    return (repr(sorted(lys.get_statistics().items())), len(lys.get_recycled()), lys.get_queue_status()["size"])
 
 
 def reported_ids(texts):
@@ -720,6 +772,7 @@ class Model:
     def __init__(self, tier):
         self.tier = tier
         self._ops = {}
+        self._ref = {}
 
     def roots(self):
         """[max_queue_size, auto_digest_threshold, retention minutes, alphabet level, digester registry, silent].
@@ -755,6 +808,11 @@ class Model:
             else:
                 for mode, silent in (("custom", False), ("partial", False), ("builtin", True), ("builtin", False)):
                     out.append([cap, thr, ret, lvl(cap, thr, ret, "quick"), mode, silent])
+                # construction order: the instance under test is the SECOND one built from the caller's digesters dict
+                # (which overrides two types only, the built-in digesters get filled in); what this can influence is
+                # who digests an item and whose callback it reaches: one item of each kind (library-digested, harness-
+                # digested and raising, sensitive with a returning / raising callback) on every path
+                out.append([cap, thr, ret, "small", "partial", True, "second"])
         return out
 
     def build(self, root):
@@ -762,7 +820,7 @@ class Model:
         st.cfg = tuple(root)
         st.clock = vclock.VClock()
         vclock.use(st.clock)
-        st.box = Box(root[0], root[1], root[2], root[4], root[5])
+        st.box = Box(root[0], root[1], root[2], root[4], root[5], born=root[6] if len(root) > 6 else "first")
         st.last = ("init",)
         st.queued = None
         return st
@@ -778,9 +836,10 @@ class Model:
         b.types = dict(o.types)
         b.created = dict(o.created)
         b.next_id = o.next_id
+        b.siblings = o.siblings
         c.box = b
         c.last = st.last
-        c.queued = None
+        c.queued = st.queued  # the Waste objects are shared between a state and its copies, their order is part of the copy
         return c
 
     def ops(self, st):
@@ -802,20 +861,84 @@ class Model:
     def observe(self, st):
         return st.last
 
+    def second_instances(self, st):
+        """Operation 'decoy': further Lysosomes with the same options next to the state's own (the 'first').
+        1. one built from separate argument objects: starts empty, sees nothing of the first (decoy_activity);
+        2. one built from the SAME caller-owned argument objects as the first (its digesters dict, which may override
+           only some types), with its own on_toxic: judged call by call by the normal oracle (its items reach ITS
+           callback exactly once, its counters, its recycling bin), and its observations must equal those of a lone
+           instance with the same options (the caller's dict is no channel between instances);
+        3. the first instance afterwards, judged by the normal oracle, while the others must not notice."""
+        box = st.box
+        v = []
+        del box.dlog[:]
+        del box.strays[:]
+        box.running[None] = "other-instance"
+        others = []
+        box.siblings += 1
+        try:
+            dv, decoy = decoy_activity(box, 1000 * box.siblings + 1)
+            v += dv
+            others.append(decoy)
+        except sched.HangDetected as e:
+            v.append(("hang:decoy", f"a call on a second, freshly built Lysosome would never return: {e}"))
+        except common.HarnessError:
+            raise
+        except Exception as e:  # noqa: BLE001
+            v.append((f"raises:decoy:{type(e).__name__}", f"activity on a second, freshly built Lysosome raised "
+                                                          f"{type(e).__name__}: {e}"))
+        finally:
+            _Capture.sink = None
+        if box.dlog or box.strays:
+            v.append(("second-instance:callback-of-other-instance", f"while a second Lysosome (separate arguments) was used, "
+                      f"the first one's callbacks were invoked: {[(e[0], e[1]) for e in box.dlog] + box.strays}"))
+        if box.args.digesters and not v:
+            key = st.cfg[:6]
+            if key not in self._ref:
+                lone = Box(box.cap, box.thr, box.ret_min, box.mode, box.silent, first_id=900001)
+                trace, lv = _activity(self, st, lone, SECOND_OPS, [], "lone", "a lone instance")
+                self._ref[key] = None if lv else (trace, summary(lone))
+            box.siblings += 1
+            who = "a second Lysosome built from the same digesters dict object as the first (own on_toxic)"
+            try:
+                sib = Box(box.cap, box.thr, box.ret_min, box.mode, box.silent, first_id=1000 * box.siblings + 1, args=box.args)
+            except Exception as e:  # noqa: BLE001
+                v.append((f"raises:constructor:{type(e).__name__}", f"{who}: the constructor raised {type(e).__name__}: {e}"))
+            else:
+                trace, sv = _activity(self, st, sib, SECOND_OPS, [box], "same-arguments-instance", who)
+                v += sv
+                others.append(sib)
+                if not sv and self._ref[key] is not None and (trace, summary(sib)) != self._ref[key]:
+                    v.append(("second-instance-differs-from-lone-instance",
+                              f"{who} was put through {list(SECOND_OPS)}: observations {(trace, summary(sib))} differ from those "
+                              f"of an instance built from its own arguments {self._ref[key]}"))
+        trace = ()
+        if not v:
+            trace, fv = _activity(self, st, box, FOLLOW_UP, others, "first-after-second",
+                                   "the first instance, after others were built and used,")
+            v += fv
+        st.queued = None
+        st.last = ("decoy", tuple(trace))
+        return v
+
     def step(self, st, op):
         _setup()
         vclock.use(st.clock)
+        known = st.queued  # what the generic walk found at the end of the previous step: no library code ran since
         st.queued = None
         kind = op[0]
         if kind == "advance":
             st.clock.advance(op[1] * 60)
             st.last = ("advance",)
+            st.queued = known
             return []
+        if kind == "decoy":
+            return self.second_instances(st)
         box = st.box
         lys = box.lys
         cap, thr = box.cap, box.thr
         now = st.clock.now()
-        qb = box.qids()
+        qb = [ident(w)[0] for w in known] if known is not None else box.qids()
         foreign = [i for i in qb if i not in box.types]
         if foreign:
             return [("queue-foreign-item:before-call", f"items {foreign} are queued in this lysosome but were never ingested "
@@ -823,6 +946,7 @@ class Model:
         sb = lys.get_statistics()
         del box.dlog[:]
         del box.log[:]
+        del box.strays[:]
         _Capture.sink = box.log
         nid_before = box.next_id
         ingesting = kind in INGEST_KINDS
@@ -831,11 +955,7 @@ class Model:
         box.running[None] = ("emergency" if at_capacity else "auto-digest") if ingesting else kind
         v = []
         try:
-            if kind == "decoy":
-                ret = None
-                v += decoy_activity(box)
-            else:
-                ret = box.apply(op)
+            ret = box.apply(op)
         except sched.HangDetected as e:
             if ingesting:
                 where = "auto-digest-threshold" if len(qb) + 1 >= thr and not at_capacity else \
@@ -901,6 +1021,10 @@ class Model:
         # sensitive data
         if "SECRET" in repr(lys.get_recycled()):
             v.append(("sensitive-in-recycling-bin", f"get_recycled() = {lys.get_recycled()!r}"))
+        if box.strays:
+            v.append((f"sensitive-reached-other-instance-callback:{label}",
+                      f"sensitive items {box.strays} ingested into this lysosome were handed to the on_toxic callback of "
+                      f"another Lysosome (built earlier from the same argument objects)"))
         over = {i: n for i, n in box.toxic_calls.items() if n > 1}
         if over and not any(k.startswith("sensitive-callback-twice") for k, _ in v):
             v.append((f"sensitive-callback-twice:{label}", f"on_toxic calls per item: {over}"))
@@ -909,12 +1033,39 @@ class Model:
         return v
 
 
+def _activity(model, st, box, ops, others, tag, who):
+    """Put `box` (an instance living next to the state's own) through `ops`, every call judged by the normal oracle;
+    the instances in `others` must not notice. Returns (observations per call, violations)."""
+    s = State()
+    s.cfg, s.clock, s.box, s.last, s.queued = st.cfg, st.clock, box, ("init",), None
+    v, trace = [], []
+    keep = box.args.current
+    box.args.current = box
+    try:
+        for n, sop in enumerate(ops):
+            for o in others:
+                del o.dlog[:]
+                del o.strays[:]
+            sv = model.step(s, sop)
+            trace.append(s.last)
+            v += [(f"{tag}:{k}", f"{who} after {list(ops[:n])}, its call {sop}: {w}") for k, w in sv]
+            talk = [(e[0], e[1]) for o in others for e in o.dlog] + [i for o in others for i in o.strays]
+            if talk:
+                v.append((f"{tag}:callback-of-other-instance", f"{who} after {list(ops[:n])}: during its call {sop} the "
+                          f"callbacks of ANOTHER instance were invoked for items {talk}"))
+            if v:
+                break
+    finally:
+        box.args.current = keep
+    return trace, v
+
+
 def _selfcheck(model):
     hist0 = (("ingest", "MISFOLDED_PROTEIN", "recycle"), ("advance", 30), ("ingest_sensitive", "ok"), ("digest", 1),
              ("ingest_error", "raise"), ("clear_bin",), ("advance", 61), ("autophagy",), ("ingest_sensitive", "raise"),
              ("decoy",))
     for root in ([8, 8, 60, "tiny", "custom", True], [3, 8, 60, "mid", "partial", False], [2, 8, 60, "full", "builtin", True],
-                 [3, 2, 0, "full", "custom", False]):
+                 [3, 2, 0, "full", "custom", False], [2, 3, 60, "mid", "partial", True, "second"]):
         hist = hist0  # behaviour tags of item types without a harness digester are ignored by Box.apply
         for n in range(len(hist) + 1):
             a = model.build(root)
@@ -1272,23 +1423,34 @@ def run(ctx):
         raise common.HarnessError("Lysosome has no threading.Lock/RLock attribute to replace")
     # two instances in one process must not see each other; the clone/replay self-test below presumes that much
     # (every explored state is a fresh instance: with shared state neither the self-test nor the exploration mean anything)
-    shared = 0
-    for root in ([3, 8, 60, "mid", "custom", True], [3, 2, 60, "full", "partial", False]):
+    shared = hits = 0
+    for root in ([3, 8, 60, "mid", "custom", True], [3, 2, 60, "full", "partial", False],
+                 [2, 8, 60, "mid", "custom", False, "second"]):
         for hist, op in (([("ingest", "MISFOLDED_PROTEIN", "recycle"), ("ingest_sensitive", "ok"), ("digest", 1)], ("decoy",)),
                          ([("ingest_error", "recycle"), ("ingest_sensitive", "ok"), ("decoy",)], ("digest", None)),
                          ([("ingest_sensitive", "ok"), ("decoy",)], ("ingest", "ORPHANED_RESOURCE", "empty"))):
             probe_case = {"root": root, "hist": hist, "op": op}
             for k, w in explore.replay_case(model, probe_case):
-                shared += 1
+                # every verdict of the normal oracle is reported; only those that say "one instance noticed the other"
+                # put the exploration itself in question
+                shared += any(t in k for t in ISOLATION_KEYS)
+                hits += 1
                 ctx.report(k, f"after history {hist} op {op}: {w}", probe_case)
+    if not shared:
+        try:
+            _selfcheck(model)
+        except common.HarnessError as e:
+            if not hits:
+                raise
+            ctx.defer_harness_error(str(e))  # next to the violations the probe reported
+            shared = 1
     if shared:
-        ctx.coverage.update(states=1, transitions=6, traces_validated_against_impl=6, evaluations=6, distinct_nontrivial=1,
+        ctx.coverage.update(states=1, transitions=9, traces_validated_against_impl=9, evaluations=9, distinct_nontrivial=1,
                             rule="instance-isolation probe only: a second Lysosome in the same process disturbed the first "
                                  "one, the exploration (one fresh instance per state) was not started",
                             exhaustive=False, caps_hit=["stopped after the instance-isolation probe"])
         ctx.outcomes.add(("isolation-probe", "violated"))
         return
-    _selfcheck(model)
     depth = DEPTH[ctx.tier]
     res = explore.explore(model, ctx, depth, validate_canon=200 if ctx.tier == "thorough" else 0)
     n_seq_outcomes = len(ctx.outcomes)
@@ -1334,7 +1496,10 @@ def run(ctx):
              "silent); operations = ingest of each type x digester answer (dict, {}, None, 0, non-dict, raise with/"
              "without message, 4 exception classes, re-entering ingest), ingest_error, ingest_sensitive x on_toxic "
              "answer, daemon prune (forced / critical), digest(None/0/1/2/9), autophagy, clock advance, "
-             "clear_recycling_bin, activity on a second instance; canonical state = queue as a sequence of (waste "
+             "clear_recycling_bin, further instances next to the first (separate arguments / the SAME caller-owned "
+             "digesters dict object with an own on_toxic, each call on them and the first instance's calls afterwards "
+             "judged by the same oracle, observations compared with a lone instance), construction order (instance "
+             "under test built second from the caller's dict); canonical state = queue as a sequence of (waste "
              "type, digester behaviour, capped age); distinct/non-trivial = distinct canonical state. C: every schedule "
              "of each 2-thread harness up to the preemption bound, scheduling point = every source line of lysosome.py; "
              "distinct = distinct (harness, outcome) pair. transitions = A transitions + C schedules",
@@ -1370,7 +1535,8 @@ def run(ctx):
         "calls and backward jumps, so a single `x += 1` line is atomic)",
         "Waste objects built inside the library are stamped with the virtual clock (module global Waste rebound)",
         "harness digesters (all four non-sensitive waste types, or two of them in registry 'partial') behave as fixed "
-        "per item at ingestion; sensitive items go through the library's own toxic digester and the harness on_toxic",
+        "per item at ingestion; they are plain caller functions in one caller-owned dict and report to the instance whose "
+        "public call is running (sequential engine); each instance has its own on_toxic callback; sensitive items go through the library's own toxic digester and the harness on_toxic",
         "console output of silent=False runs is swallowed by a module-level print in lysosome/autophagy_daemon",
         "the role of a processed item (digest / auto-digest / emergency) is derived from the public call under judgement "
         "(kind; ingest at capacity or not; in schedules: whether the configuration can reach capacity)",
